@@ -145,6 +145,9 @@ def run(ctx, rep):
                # generic node factory: builds the node kind its *input mapping* already names
                ('pytableaux.proof.common', 'Node.for_mapping')}
     nq = 0
+    for (amod, aqn) in list(allowed):
+        # private helpers called only from a reviewed site belong to it
+        allowed |= {(amod, q) for q in astq.helper_closure(m, amod, aqn.rsplit('.', 1)[0], {aqn})}
     for mod, qn, fn in astq.iter_functions(m):
         for c in astq.calls(fn, nested=False):
             nm = astq.call_name(c)
